@@ -247,6 +247,16 @@ K('c11_chain_id_invariant', LEG, 'legacy::deserialize_chain_id', {'C11': Q, 'C06
 for _h in ('c13_visitor_u256_from_u64', 'c13_visitor_u256_from_nonneg_i64', 'c13_visitor_u256_from_nonneg_f64', 'c13_visitor_i256_from_i64', 'c13_visitor_i256_from_f64'):
     K(_h, SER, 'ethnum permissive visitor as instantiated by serialization::uint / typeddata', {'C13': Q, 'C09': Q, 'C17': Q},
       'for every JSON number of that Rust type: taken at exactly its mathematical value, or refused when fractional / not exactly representable (|x| >= 2^53)', complete=True)
+for _l in (0, 1, 2, 3, 4, 5, 6, 8, 12):
+    _t = Q if _l <= 4 else T
+    K(f'c13_bytes_text_len{_l}', SER, 'serialization::bytes::deserialize', {'C13': _t, 'C09': T, 'C17': T},
+      f'byte fields (calldata, typed-data bytes): for EVERY ASCII text of {_l} characters, accepted iff it is 0x followed by an even number of hex digits of either case, and then the bytes are the digit pairs written; a missing or repeated prefix, an odd digit count or a foreign character is an error; never panics',
+      complete=True, bound=f'texts of {_l} ASCII characters (one harness per length; the deserializer is serde\'s StrDeserializer, i.e. the text of a JSON string)', module='verif_kani_bytes', timeout=900)
+for _l in (2, 4, 64, 65, 66, 68):
+    _t = Q if _l in (4, 65, 66) else T
+    K(f'c13_key_text_len{_l}', SER, 'serialization::bytearray::deserialize::<_, 32>', {'C13': _t, 'C17': T},
+      f'storage keys: for EVERY ASCII text of {_l} characters, accepted iff it is 0x followed by exactly 64 hex digits, and then the 32 bytes are the digit pairs written; shorter or longer keys are refused, never padded or truncated',
+      complete=True, bound=f'texts of {_l} ASCII characters', module='verif_kani_bytes', timeout=900)
 N('nb_tx_encoding_vs_reference', TXN, 'Transaction::{deserialize, signing_message, encode}', {'C06': Q, 'C07': Q, 'C11': Q},
   'signed bytes and signing digest equal a reference encoder written from the Yellow Paper / EIP-155 / 2930 / 1559; a strict decoder accepts the output, consumes it completely and returns every field',
   'native: 3 kinds x 68 calldata lengths (0..=60, 255..257, 1100, 65535..65537) x 3 random field draws (byte widths 0..32, access lists up to 3x3) x 3 signatures (r,s at 1, n-1, random; both parities); 20 structured access lists (repeated keys / addresses, empty key lists, zero and 0xff keys, 16 / 17 / 40 / 256 keys per entry, 17 / 33 / 70 entries) for both typed kinds')
@@ -350,7 +360,7 @@ PROPS = {
                 note='Typed transactions carry the chain id as first signed field: proved by the c06_eip2930_* / c06_eip1559_* contracts (see C06). "A signature for one chain id never validates under another" additionally needs collision resistance of Keccak and C05; assumed.'),
     'C13': dict(level='proof',
                 technique='Kani/CBMC contracts on the real ethnum permissive visitor as instantiated by this crate, over every u64 / i64 / f64 JSON number; native stand-in for strings and for the repository\'s negative-number guard',
-                claim='Proved for every JSON number: a non-negative integer or float is taken at exactly its mathematical value or refused (fractional, >= 2^53 floats), for unsigned fields and for signed typed-data values. Bounded (native): the repository helper that refuses negative numbers before delegating, decimal / hex string spellings (14 integers incl. the 2^53, 2^64, 2^255-19, 2^256 boundaries, 30 malformed spellings) on all 16 numeric fields, byte / address / storage-key rules, identical encodings for equal integers.',
+                claim='Proved for every JSON number: a non-negative integer or float is taken at exactly its mathematical value or refused (fractional, >= 2^53 floats), for unsigned fields and for signed typed-data values. Proved for byte fields and storage keys (every ASCII text of 0..4 characters in quick, 5, 6, 8, 12 in thorough, resp. of 4, 65, 66 characters - 2, 64, 68 in thorough): accepted iff 0x + an even number of hex digits, resp. 0x + exactly 64 hex digits, and the bytes are the digit pairs. Bounded (native): the repository helper that refuses negative numbers before delegating, decimal / hex string spellings (14 integers incl. the 2^53, 2^64, 2^255-19, 2^256 boundaries, 30 malformed spellings) on all 16 numeric fields, byte / address / storage-key rules, identical encodings for equal integers.',
                 note='serialization::uint::deserialize itself (serde_json Value round trip) does not terminate under CBMC and its dependency trait impl cannot be stubbed, so the negative-number guard is only in the native stand-in. Observation (dependency behaviour, not claimed as a defect): the signed visitor accepts the float -2^53, the one point where a float literal may already have been rounded by the JSON parser. ethaddr address parsing is dependency code (assumed).'),
     'C16': dict(level='other',
                 technique='Kani/CBMC data-flow contract on the real AccountOptions::private_key with recording callee stubs; process-level native stand-in for everything clap / stdout / environment',
